@@ -350,7 +350,11 @@ class Ring:
                 if a.id not in memo:
                     stack.append(a)
                     continue
-                memo[x.id] = Rat(p_atom(self.atom((op, self.key(memo[a.id])), x)), {})
+                cv = self._const_of(memo[a.id])
+                if cv is not None:  # floor / round of something that normalises to a constant
+                    memo[x.id] = Rat(p_const(Fraction(math.floor(cv) if op == "floor" else round(cv))), {})
+                else:
+                    memo[x.id] = Rat(p_atom(self.atom((op, self.key(memo[a.id])), x)), {})
             elif op == "fn":
                 kids = [a for a in x.args[1:] if a.id not in memo]
                 if kids:
